@@ -95,6 +95,17 @@ func runLifeSeq(ctx context.Context, srv *sim.Server, seqNo int, calls []lcall, 
 		skipped := false
 		switch call.k {
 		case "act":
+			if sl != nil {
+				// the slot gets a new identity; the one it abandons is deactivated behind the scenes
+				// (not a call of the sequence: the specification forgets an abandoned identity, and
+				// since attaches can depend on who else holds a document, it must not linger attached)
+				_ = sl.c.Deactivate(ctx)
+				for _, a := range sl.atts {
+					if a != nil {
+						a.Close()
+					}
+				}
+			}
 			c := srv.NewClient(p.PublicKey, fmt.Sprintf("lc%d-%d-%d", seqNo, call.c, i))
 			err = c.Activate(ctx)
 			if err == nil {
